@@ -30,3 +30,4 @@ func verifNative() bool
 func verifNativeSleep()
 func verifNativeLock()
 func verifNativeUnlock()
+func verifBytesEqual(a, b []byte) bool
